@@ -585,12 +585,77 @@ def P_C03 (v : Variant) (attr : Toks) (item : Item) (view : View) : Bool :=
       | _, _ => false
   | .trait _ => true
 
+/-! ### lifetimes in lifted where-predicates -/
+
+def untilGt : Toks → Toks
+  | [] => []
+  | .punct '>' :: _ => []
+  | t :: rest => t :: untilGt rest
+
+/-- the lifetimes bound by `for<..>` binders inside a token list -/
+def forBound : Toks → List String
+  | [] => []
+  | .ident "for" :: .punct '<' :: rest => lifetimesIn (untilGt rest) ++ forBound rest
+  | .group _ g :: rest => forBound g ++ forBound rest
+  | _ :: rest => forBound rest
+
+/-- every lifetime a where-predicate names is `'static`, declared (`declared`), or bound by a `for<..>`
+    of the predicate itself -/
+def closedOver (declared : List String) (q : WherePred) : Bool :=
+  (lifetimesIn q.print).all (fun n => n == "static" || declared.contains n || (forBound q.print).contains n)
+
+def GenTrait.lifetimeNames (t : GenTrait) : List String := t.params.filterMap GParam.lifetimeName?
+
+/-- the predicate of a generated impl that carries the dependency bounds (`Self: ..` / `Impl<EntraitT>: ..`) -/
+def isDepPred : WherePred → Bool
+  | .ty [] bt _ false => bt == selfTy_ || bt == implPathTy
+  | _ => false
+
+/-- C03, lifetimes: the where clause of the generated trait names no lifetime that is not in scope there
+    (the function's own lifetime parameters stay on the method, and so must every predicate that talks
+    about them), and the impl adds nothing to it but the predicate with the dependency bounds -/
+def P_C03_closed (item : Item) (view : View) : Bool :=
+  match item with
+  | .fn _ | .mod_ _ =>
+      match mainTrait? view, mainImpl? view with
+      | some t, some im =>
+          t.preds.all (closedOver t.lifetimeNames) &&
+          im.preds.all (fun q => isDepPred q || t.preds.contains q)
+      | _, _ => false
+  | _ => true
+
+/-- valid lifetimes in every source function: a where-predicate names only `'static`, lifetime parameters
+    of its function and lifetimes it binds itself (anything else is E0261 in the source already) -/
+def Item.lifetimesOk (item : Item) : Bool :=
+  item.sourceFns.all (fun f => f.sig.generics.preds.all (closedOver f.sig.generics.lifetimeNames))
+
 /-- the type parameters of one signature have pairwise different names (a duplicate is E0403) -/
 def Sig.typeParamsDistinct (s : Sig) : Bool :=
   nodup ((s.generics.params.filter GParam.isType).map GParam.name)
 
 /-- valid generics in every source function -/
 def Item.genericsOk (item : Item) : Bool := item.sourceFns.all (fun f => f.sig.typeParamsDistinct)
+
+def GParam.boundToks : GParam → List Toks
+  | .ty _ _ bs _ _ => bs
+  | .lt _ _ bs _ => bs
+  | .const_ _ _ cty _ => [cty]
+
+/-- recorded defect class `C03.ltbound`: a bound that names a lifetime parameter of the function — written
+    inline on a type parameter that is lifted to the trait, or on the dependency — ends up on the trait /
+    impl header, where that lifetime is not in scope (E0261) -/
+def F_C03_ltbound (item : Item) (view : View) : Bool :=
+  match item with
+  | .fn _ | .mod_ _ =>
+      let open_ (declared : List String) (ts : Toks) : Bool :=
+        (lifetimesIn ts).any (fun n => !(n == "static" || declared.contains n || (forBound ts).contains n))
+      (match mainTrait? view with
+       | some t => t.params.any (fun q => q.boundToks.any (open_ t.lifetimeNames))
+       | none => false) ||
+      (match mainImpl? view with
+       | some im => im.preds.any (fun q => isDepPred q && open_ (im.params.filterMap GParam.lifetimeName?) q.print)
+       | none => false)
+  | _ => false
 
 /-- trait-level generic names are unique (a duplicate is E0403) -/
 def traitParamsNodup (view : View) : Bool :=
@@ -1010,6 +1075,10 @@ def P_C12 (v : Variant) (attr : Toks) (item : Item) (view : View) : Bool :=
     (match mainImpl? view with
      | some im => zipAll asyncImplOk item.srcSigs im.members && asyncAttrsOk item.attrs im.attrs
      | none => false)
+
+/-- C03 with the lifetime clause -/
+def P_C03_full (v : Variant) (attr : Toks) (item : Item) (view : View) : Bool :=
+  P_C03 v attr item view && P_C03_closed item view
 
 /-- C05 in full: the leaf trait of a concrete-dependency function is the *final* trait.  The nested
     invocation written on it knows nothing of the options of the first one (`?Send` in particular), so
